@@ -120,10 +120,27 @@ Section Repl.
     s_locals : list V;          (* process.locals *)
     s_result : V;               (* process.result = Some(Ok v): the sleeping process's stored result *)
     s_lrt_nil : bool;           (* Repl.last_result_type == Type::nil() *)
+    s_pending : option nat;     (* Environment.locals_counts[pid]: the locals count the worker reported
+                                   with the last result, until the REPL takes it (take_locals_count) *)
   }.
 
   (* Repl::new (repl.rs:44): start_process(None) creates a sleeping process with result nil *)
-  Definition initial : session := mkSession [] [] vnil true.
+  Definition initial : session := mkSession [] [] vnil true None.
+
+  (* repl.rs forget_unstored_bindings: `if let Some(n) = env.take_locals_count(pid)` drop every
+     variable whose index is >= n (a line that short-circuits binds variables it never stores;
+     locals are stored in index order, so those are exactly the ones beyond the count) *)
+  Fixpoint retain_below (n : nat) (b : bindings) : bindings :=
+    match b with
+    | [] => []
+    | (x, BVar i) :: r => if i <? n then (x, BVar i) :: retain_below n r else retain_below n r
+    | (x, BAlias) :: r => (x, BAlias) :: retain_below n r
+    end.
+  Definition forget (s : session) : session :=
+    match s_pending s with
+    | Some n => mkSession (retain_below n (s_bindings s)) (s_locals s) (s_result s) (s_lrt_nil s) None
+    | None => s
+    end.
 
   (* worker.rs:743-751: build the kept values, `LocalNotFound` on a bad index (nothing replaced) *)
   Fixpoint gather (ls : list V) (keep : list nat) : wres (list V) :=
@@ -153,17 +170,19 @@ Section Repl.
   | CWorkerError (e : env_err) (s : session)   (* the bindings are already rewritten; Worker::step returns Err *)
   | COk (s : session).
 
-  Definition compact (s : session) : compacted :=
+  Definition compact_core (s : session) : compacted :=
     let keep := keep_indices (s_bindings s) in
     match renumber keep (s_bindings s) with
     | Panic site => CPanic site
     | Err _ => CPanic 0
     | Val b' =>
         match gather (s_locals s) keep with
-        | WErr e => CWorkerError e (mkSession b' (s_locals s) (s_result s) (s_lrt_nil s))
-        | WOk ls' => COk (mkSession b' ls' (s_result s) (s_lrt_nil s))
+        | WErr e => CWorkerError e (mkSession b' (s_locals s) (s_result s) (s_lrt_nil s) (s_pending s))
+        | WOk ls' => COk (mkSession b' ls' (s_result s) (s_lrt_nil s) (s_pending s))
         end
     end.
+  (* compact begins with forget_unstored_bindings *)
+  Definition compact (s : session) : compacted := compact_core (forget s).
 
   (* what running the line does to the process *)
   Record ran := mkRan {
@@ -204,22 +223,28 @@ Section Repl.
                      its stores; frame exit keeps the locals; worker.rs:629 releases the orphans *)
                   let ls := s_locals s1 ++ s_result s1 :: r_stored r in
                   let keep := keep_indices (c_bindings c) in
+                  (* worker.rs get_result: the result travels with `locals_count = process.locals.len()` *)
                   EValue (r_value r)
-                    (mkSession (c_bindings c) (release_orphan_locals ls keep) (r_value r) (c_result_nil c))
+                    (mkSession (c_bindings c) (release_orphan_locals ls keep) (r_value r) (c_result_nil c)
+                               (Some (length ls)))
                 else
                   (* repl.rs: no function, the process is not resumed; the recorded type of the
                      previous result is kept along with the result (`if !instructions.is_empty()`) *)
-                  ENone (mkSession (c_bindings c) (s_locals s1) (s_result s1) (s_lrt_nil s1))
+                  ENone (mkSession (c_bindings c) (s_locals s1) (s_result s1) (s_lrt_nil s1) (s_pending s1))
             end
         end
     end.
 
   (* the same line without the final orphan release (the state between frame exit and GetResult) *)
   Definition run_line_unreleased (s1 : session) (c : compiled) (r : ran) : session :=
-    mkSession (c_bindings c) (s_locals s1 ++ s_result s1 :: r_stored r) (r_value r) (c_result_nil c).
+    mkSession (c_bindings c) (s_locals s1 ++ s_result s1 :: r_stored r) (r_value r) (c_result_nil c)
+              (Some (length (s_locals s1 ++ s_result s1 :: r_stored r))).
 
   (* repl.rs:209 request_variable -> environment.rs request_locals -> worker.rs:696 get_locals *)
+  (* (request_variable begins with forget_unstored_bindings; the state change it makes is the one
+     `compact` would make next, so it is modelled as a query on `forget s`) *)
   Definition request_variable (s : session) (x : name) : wres V :=
+    let s := forget s in
     match lookup x (s_bindings s) with
     | Some (BVar i) =>
         match nth_error (s_locals s) i with
